@@ -34,8 +34,10 @@ ASSUMPTIONS = [
     "a 'fewer than t shares do not sign' relation is only demanded when the witness's joint polynomial has degree exactly t-1; "
     "which node's view a subset is evaluated in is the first listed member's",
     "all nodes are honest and the transport is reliable (C13 covers the broadcast layer against faulty members); design check "
-    "exhaustive over all polynomials for p=7,n=3,t=2,V=1 and p=5,n=3,t=3,V=1 (canonical order) and over all delivery orders for "
-    "n=3, t in {2,3}, V in {1,2} (two polynomials per node)",
+    "exhaustive (thorough tier) over all polynomials for p=7,n=3,t=2,V=1 and over all polynomials of two nodes (two of the third) for "
+    "p=5,n=3,t=3,V=1 in one canonical delivery order, and over ALL delivery orders for n=3, t in {2,3}, V in {1,2} with two polynomials "
+    "per node; n=4,5 with two polynomials per node in two canonical orders; quick tier: p=5,n=3,t=2 (two nodes all polynomials) and all "
+    "orders for V=1",
     "thorough tier only: two full in-process dkg.Run ceremonies over a local relay as dkg_test.go runs them (lock VerifyHashes / "
     "VerifySignatures, deposit data and keystores checked with real tbls calls; logged as a Full event the spec demands all-true)",
 ]
@@ -309,7 +311,7 @@ def run(tier, seed):
     o = vlib.Outcome(PID, tier, seed)
     thorough = tier == "thorough"
     # stage 0: design check + controls that MUST be violated
-    mcs = (["FrostMC.cfg", "FrostMC_t3.cfg", "FrostMC_order.cfg", "FrostMC_n4.cfg"] if thorough
+    mcs = (["FrostMC.cfg", "FrostMC_t3.cfg", "FrostMC_order.cfg", "FrostMC_n4.cfg", "FrostMC_n4e.cfg", "FrostMC_n5.cfg"] if thorough
            else ["FrostMC_quick.cfg", "FrostMC_order_quick.cfg"])
     for cfg in mcs:
         r = vlib.tlc(PID, FAMILY, "FrostMC", cfg, timeout=1500)
